@@ -209,7 +209,7 @@ def replay(chk, path):
     for d in r["diffs"]:
         print("diff:", json.dumps(d))
     js = judge_case(c, r)
-    for s, _ in js:
+    for s in sorted({s for s, _ in js}):
         print("signature:", s)
     vlib.cleanup()
     return 1 if js else 0
